@@ -33,6 +33,16 @@ DESC = {
  "C18-1": "TransientSource::unregister in state Remove unregisters the child a second time",
  "C18-2": "replace() takes the Disabled shortcut also in state Disable (registered child dropped without unregister)",
  "C19-1": "set_signals returns early when nothing is removed, before the bookkeeping is completed",
+ "C02-2": "channel batch limit = capacity (same edit as C04-1; demonstrated on sync_channel(0): Closed never delivered)",
+ "C03-2": "sender-side coalescing flag in Ping::ping, cleared after the callback instead of right after the drain",
+ "C06-3": "LoopHandle::remove puts the dispatcher back into its slot when unregister fails (e.g. after disable)",
+ "C07-2": "Generic::reregister stores the new token before the fallible poller call",
+ "C10-3": "StreamSource polls at most 1024 items per dispatch and does not wake itself up for the rest",
+ "C12-2": "Timer::reregister returns early when the new deadline is unrepresentable, leaving the old wheel entry",
+ "C15-2": "failed insertion pops its (last) slot again: the generation counter is lost and a dead token comes back",
+ "C17-2": "Async::register_waker skips the poller re-arm when a waker is already stored (direction may differ)",
+ "C19-2": "remove_signals updates a local copy of the mask and never stores it back",
+ "C20-2": "key encoder reduces the generation modulo MASK_VERSION (0xFFFF collides with 0)",
  "C20-1": "TokenFactory::token stops advancing at the last sub-id (hands the same token out again)",
 }
 print("| seed | change (source files) | quick checks run with it applied → verdict, failing obligations | trial history |")
